@@ -498,7 +498,6 @@ func c13Sections(p *Prog, r *Report) {
 	r.Instances("D6-section-bookkeeping", "sections marked as handled in writeProject", n, 3)
 }
 
-
 // c13Addressed: in the package.json writer every sjson.Set of a path P is reachable, since the
 // value at P was read (gjson.Get(manifest, P).String()), only through the "equal" edge of a
 // comparison of that value with the update's original version. Rewriting an entry whose current
